@@ -23,7 +23,7 @@ def fold(t, env):
         if f == 'Not':
             x = fold(a[0], env)
             return None if x is None else int(not x)
-        if f in ('Add', 'Sub', 'Mul', 'Div', 'Rem', 'Eq', 'Ne', 'Lt', 'Le', 'Gt', 'Ge', 'saturating_sub', 'Shr', 'Shl', 'BitAnd', 'BitOr') and len(a) == 2:
+        if f in ('Add', 'Sub', 'Mul', 'Div', 'Rem', 'Eq', 'Ne', 'Lt', 'Le', 'Gt', 'Ge', 'saturating_sub', 'Shr', 'Shl', 'BitAnd', 'BitOr', 'div_ceil', 'min', 'max') and len(a) == 2:
             x, y = fold(a[0], env), fold(a[1], env)
             if x is None or y is None:
                 return None
@@ -31,7 +31,8 @@ def fold(t, env):
                 return {'Add': lambda: x + y, 'Sub': lambda: x - y, 'Mul': lambda: x * y, 'Div': lambda: x // y, 'Rem': lambda: x % y,
                         'Eq': lambda: int(x == y), 'Ne': lambda: int(x != y), 'Lt': lambda: int(x < y), 'Le': lambda: int(x <= y),
                         'Gt': lambda: int(x > y), 'Ge': lambda: int(x >= y), 'saturating_sub': lambda: max(x - y, 0),
-                        'Shr': lambda: x >> y, 'Shl': lambda: x << y, 'BitAnd': lambda: x & y, 'BitOr': lambda: x | y}[f]()
+                        'Shr': lambda: x >> y, 'Shl': lambda: x << y, 'BitAnd': lambda: x & y, 'BitOr': lambda: x | y,
+                        'div_ceil': lambda: -(-x // y), 'min': lambda: min(x, y), 'max': lambda: max(x, y)}[f]()
             except Exception:
                 return None
         if f == 'ovf':
